@@ -766,6 +766,37 @@ Section Top2.
     unfold fetch_topics_lags_g. rewrite map_map. apply map_ext. intros [t cps]. cbn. f_equal.
     destruct (get broker t); [apply add_lags_g_strip | reflexivity].
   Qed.
+  (* completeness of the broker half: for every topic the broker map has and every partition it reports, the reply
+     carries exactly the recorded broker offsets of that partition (so, with lag_ok, the lag is computed from the newest
+     one) - whatever other topics of the group are stale *)
+  Lemma add_lag_g_brokers r cp : cp_brokers (add_lag_g r cp) = somes r.
+  Proof.
+    unfold add_lag_g. destruct (cp_offsets cp) as [|o os]; cbv beta iota zeta.
+    - destruct (somes r); reflexivity.
+    - destruct (somes r); cbv beta iota; [reflexivity|]. destruct (last (o :: os) None); reflexivity.
+  Qed.
+
+  Lemma add_lags_g_nth tl : forall cps i j cp',
+    nth_error (add_lags_g tl i cps) j = Some cp' ->
+    exists cp, nth_error cps j = Some cp /\
+               cp' = match nth_error tl (i + j) with None => cp | Some r => add_lag_g r cp end.
+  Proof.
+    induction cps as [|x xs IH]; intros i j cp' H; cbn [add_lags_g] in H; [destruct j; discriminate|].
+    destruct j as [|j]; cbn [nth_error] in *.
+    - inversion H; subst. exists x. rewrite Nat.add_0_r. auto.
+    - destruct (IH (S i) j cp' H) as (cp & Hc & E). exists cp. split; [exact Hc|]. rewrite Nat.add_succ_r. exact E.
+  Qed.
+
+  Lemma fetch_lags_complete broker snap t cps' tl j cp' r :
+    In (t, cps') (fetch_topics_lags_g broker snap) -> get broker t = Some tl ->
+    nth_error cps' j = Some cp' -> nth_error tl j = Some r -> cp_brokers cp' = somes r.
+  Proof.
+    intros Hin Hb Hj Hr. unfold fetch_topics_lags_g in Hin. apply in_map_iff in Hin.
+    destruct Hin as (tc & E & _). destruct tc as [t0 cps0]. cbn [fst snd] in E.
+    assert (Et : t0 = t) by congruence. subst t0. rewrite Hb in E.
+    assert (Ec : cps' = add_lags_g tl 0 cps0) by congruence. subst cps'.
+    destruct (add_lags_g_nth tl cps0 0 j cp' Hj) as (cp & _ & ->). cbn [Nat.add]. rewrite Hr. apply add_lag_g_brokers.
+  Qed.
 End Top2.
 
 Section Replies.
@@ -857,6 +888,15 @@ Section Replies.
     { unfold init_g. split; cbn [g_ws]; intros i w; intros; rewrite nth_error_map in H;
         destruct (nth_error queues i); inversion H; subst; cbn in *; [discriminate | contradiction]. }
     destruct (G sched _ _ _ I0 E) as [_ Hr]. exact Hr.
+  Qed.
+  Lemma reply_broker_complete prio st c snap st' l :
+    exec cf now true prio st (KFetchCons3 c snap) = SDone st' (RConsumer l) ->
+    exists cl, get st c = Some cl /\
+      forall t cps' tl j cp' r, In (t, cps') l -> get (cl_broker cl) t = Some tl ->
+        nth_error cps' j = Some cp' -> nth_error tl j = Some r -> cp_brokers cp' = somes r.
+  Proof.
+    cbn [exec]. intros H. destruct (get st c) as [cl|]; [|discriminate]. inversion H; subst. exists cl. split; [reflexivity|].
+    intros t cps' tl j cp' r. apply fetch_lags_complete.
   Qed.
 End Replies.
 
